@@ -73,3 +73,27 @@ def segmentation(rnd, total, mode):
         out.append(n)
         left -= n
     return out
+
+
+def critical_segmentation(rnd, items):
+    """
+    Segment lengths whose boundaries fall at the places where a stream parser is most fragile:
+    before/after the first bytes of every item and just before its last byte (for a CRLF-terminated
+    NMEA sentence: between CR and LF). items: list of byte strings. A random subset of the cut
+    points is used so that different runs combine them differently.
+    """
+    cuts = set()
+    pos = 0
+    for it in items:
+        n = len(it)
+        for c in (0, 1, 2, 3, n - 2, n - 1):
+            if 0 < pos + c and 0 <= c <= n:
+                cuts.add(pos + c)
+        pos += n
+    cuts = sorted(c for c in cuts if 0 < c < pos and rnd.random() < 0.7)
+    out, prev = [], 0
+    for c in cuts + [pos]:
+        if c > prev:
+            out.append(c - prev)
+            prev = c
+    return out or [max(pos, 1)]
